@@ -217,6 +217,29 @@ func createLastInsertIDResult(lastInsertID uint64, asName string) *mysql.Result 
 	return ret
 }
 
+// MentionsShardTable reports whether some word of sql (a maximal run of letters,
+// digits, '_', '$' and non-ASCII characters), lower-cased, is the name of a table
+// that has a shard rule in any database of the router. The token checks below look
+// at one token per keyword and compare it case-sensitively; a statement for which
+// this function returns true must be analysed by the parser.
+func MentionsShardTable(sql string, rt *router.Router) bool {
+	rules := rt.GetAllRules()
+	for _, word := range strings.FieldsFunc(sql, isNotIdentifierRune) {
+		word = strings.ToLower(word)
+		for _, tables := range rules {
+			if _, ok := tables[word]; ok {
+				return true
+			}
+		}
+	}
+	return false
+}
+
+func isNotIdentifierRune(r rune) bool {
+	return !(r == '_' || r == '$' || r >= 0x80 ||
+		('0' <= r && r <= '9') || ('a' <= r && r <= 'z') || ('A' <= r && r <= 'Z'))
+}
+
 func CheckUnshardBase(tokenId int, tokens []string, rt *router.Router, db string) (string, bool) {
 	ruleDB := db
 	tokensLen := len(tokens)
